@@ -547,7 +547,8 @@ func runC08(c *Ctx, r *Report) {
 	c09R2(c, r, "C08.R19") // a client talks to its own association only: the table of associations belongs to one socket's loop and is keyed by the client address alone within it
 	c08AfterHandOff(c, r, "C08.R20")
 	c08PooledPeerUntouched(c, r, "C08.R21")
-	c08PooledPeerUntouched(c, r, "C08.R21")
+	c16ConstructorsFresh(c, r, "C08.R23", "")
+	c13PerListener(c, r, "C08.R22") // connections of different listeners never meet: every wrapped listener has a hand-off queue of its own
 	c08QuicAddr(c, r, "C08.R11")
 	c09R6(c, r, "C08.R12")     // a UDP client never reads another client's datagram: queued datagram records do not alias
 	c17Handle(c, r, "C08.R10") // per-connection state of a handler (the throttle's own limiter) is built per connection, only the handler-wide limiter is shared
@@ -1156,7 +1157,7 @@ func runC09(c *Ctx, r *Report) {
 	c09UDPPoolLength(c, r, "C09.R19")
 	c09CloseOnce(c, r, "C09.R20")
 	c09DiscardOnlyUnaddressed(c, r, "C09.R21")
-	c05UDPWaits(c, r, "C09.R22")    // a wait that nothing but a datagram ends keeps the association (and its table entry) for ever
+	c05UDPWaits(c, r, "C09.R22") // a wait that nothing but a datagram ends keeps the association (and its table entry) for ever
 	c09FreshAfterEnd(c, r, "C09.R23")
 	c09IdleTimerDrained(c, r, "C09.R24")
 	c09NoticeMeansEnd(c, r, "C09.R25")
@@ -2007,9 +2008,10 @@ func runC13(c *Ctx, r *Report) {
 	defer c01TeeKeepsPipeOpen(c, r, "C13.R18") // a connection that falls through a tee to the wrapped listener is still read through the tee: the handler must not have closed the pipe
 	defer c01R5(c, r, "C13.R19")               // prefetched bytes are replayed to the consumer: a handler that hands on a new connection builds it on the connection it was given (Wrap of a wrapper that reads through it), not on the raw socket below the matching buffer
 	defer c06R4(c, r, "C13.R20")               // ... and replayed unaltered: nothing a matcher does writes into the matching buffer (a view of it is only read)
-	defer c08AfterHandOff(c, r, "C13.R21") // the hand-over is clean: the handler that handed the connection on no longer touches it
-	defer c01R7(c, r, "C13.R22") // the consumer reads from the first unconsumed byte: a handler that built a reading wrapper on the connection hands on a connection that reads through it, whatever the header said
-	defer c01R7(c, r, "C13.R22") // the consumer reads from the first unconsumed byte: a handler that built a reading wrapper on the connection hands on a connection that reads through it, whatever the header said
+	defer c08AfterHandOff(c, r, "C13.R21")     // the hand-over is clean: the handler that handed the connection on no longer touches it
+	defer c01R7(c, r, "C13.R22")               // the consumer reads from the first unconsumed byte: a handler that built a reading wrapper on the connection hands on a connection that reads through it, whatever the header said
+	defer c01R3(c, r, "C13.R23")               // the bytes replayed to the consumer are the client's: the matching buffer goes back to the pool once, by the function that took it, and never while a handed-on connection still reads from it
+	defer c01R4(c, r, "C13.R24")               // a connection whose bytes have all arrived is decided and handed on: one prefetch is one read (a second one in the same prefetch waits for bytes the client will not send)
 	// R1
 	r.rule("C13.R1", "ListenerWrapper.Provision compiles its routes with listenerHandler as fallback", 1)
 	if fn := c.Fn("layer4.(*ListenerWrapper).Provision"); fn != nil {
@@ -2702,6 +2704,17 @@ func c09R9(c *Ctx, r *Report, rule string) {
 			problems = append(problems, "the notification is sent before close(closed): with the notification channel full and the server loop blocked on this association's full queue, Close and the loop wait for each other and the listener stops serving every client: "+fmtTrace(p))
 		}
 		if closedAt < 0 {
+			// the path of a second call: a test-and-set said that an earlier Close has done (or is doing) the work,
+			// and this one does nothing at all
+			again := false
+			for _, e := range p.Trace {
+				if e.Kind == "call" && (strings.Contains(e.What, "CompareAndSwap") || strings.Contains(e.What, ").Swap") || strings.Contains(e.What, "sync.Once).Do")) {
+					again = true
+				}
+			}
+			if again && sendAt < 0 {
+				continue
+			}
 			problems = append(problems, "a path of Close does not close the association's `closed` channel")
 		}
 	}
